@@ -13,6 +13,7 @@ CONSTANTS
   Atomic = FALSE
   CallbacksUnderQueueLock = TRUE
   CountCooldowns = FALSE
+  FreshChannelOnWake = FALSE
 INVARIANTS TypeOK CountExact
 
 POSTCONDITION Accepted
